@@ -25,12 +25,12 @@ def hist(rule, quick, thorough, floor=50, extra_assume=(), level="exploration", 
 
 PLANS = {
     "C01": hist(
-        "random legal histories (10 profiles, N in 1..=16, cap 2..=256) checked after every call by a model-free trace "
+        "small-scope sweep (all legal histories over 3-4 ids, depth 9/12) + random legal histories (10 profiles, N in 1..=16, cap 2..=256) checked after every call by a model-free trace "
         "monitor (present set, unread flags, union-find over binds); distinct = hash of (N, cap, op sequence); "
         "non-trivial = at least one collection AND at least one read that must not collect happened",
         (2500, 12), (40000, 150)),
     "C02": hist(
-        "random legal histories compared with the executable reference model on keys() after every call, every history "
+        "small-scope sweep + random legal histories of primitive calls compared with the executable reference model on keys() after every call, every history "
         "ends with the drain probe; non-trivial = >=2 groups formed, >=1 died, and a put-before-bind / overwrite of an "
         "unread datum / add on a present or collected id occurred",
         (2500, 12), (40000, 150)),
@@ -108,10 +108,11 @@ PLANS = {
         (3000, 12), (50000, 150), mode="sink"),
     "C11": hist(
         "small-scope sweep: every ordered left tree <= 3 vertices x every left vertex x every ordered right tree <= 4 (5 thorough) vertices x "
-        "all 3^k placements of {no, inline, heap} data; plus random trees up to 9 (12) vertices on arbitrary ids with a GC history in the left "
-        "graph; after the merge: structure (paths, injectivity, old edges, vertex count, right graph unchanged) and a read/drain continuation "
-        "judged by the C01 trace rules, the reference model and byte read-back; non-trivial = partial overlap, data in the right tree, >=1 new "
-        "vertex and a group dying in the continuation",
+        "all placements of {no, inline, heap, zero-length, already-read} data; plus random trees up to 9 (12) vertices on arbitrary ids with a GC "
+        "history in the left graph or in a graph the result almost fills; after the merge: Ok, nothing removed, right graph unchanged, and equality "
+        "(up to renaming of new ids) with a twin on which the same additions were made by kid/next_id/add/bind/put calls, re-checked after every "
+        "read of a random read/drain continuation; non-trivial = partial overlap, data in the right tree, >=1 new vertex and a group dying in the "
+        "continuation",
         (2500, 12), (40000, 150), floor=30),
     "C12": hist(
         "right graph = random tree + 0..6 extras (isolated vertices with/without data, detached sub-trees, right below the root), random left "
